@@ -132,6 +132,38 @@ pub fn to_vec<I: Iterator>(i: I) -> Vec<I::Item> {
 pub fn act(k: usize) -> i64 {
     inp(k)
 }
+/// step outcome, plain value: act 2 => panic
+pub fn st(slot: usize, val: i32) -> i32 {
+    if act(slot) == 2 {
+        panic!("injected panic at slot {}", slot);
+    }
+    val
+}
+/// step outcome, Result flavour: act 0 => Ok(val), 1 => Err(payload), 2 => panic
+pub fn st_r(slot: usize, payload: i32, val: i32) -> Result<i32, i32> {
+    match act(slot) {
+        0 => Ok(val),
+        1 => Err(payload),
+        _ => panic!("injected panic at slot {}", slot),
+    }
+}
+/// step outcome, Option flavour
+pub fn st_o(slot: usize, val: i32) -> Option<i32> {
+    match act(slot) {
+        0 => Some(val),
+        1 => None,
+        _ => panic!("injected panic at slot {}", slot),
+    }
+}
+fn idt<T>(t: T) -> T {
+    t
+}
+/// A non-closure operand with a visible evaluation: logs, then returns the identity function.
+pub fn lgf<T>(site: &str) -> fn(T) -> T {
+    pre(site);
+    push(format!("{}:operand", site));
+    idt::<T>
+}
 /// panics when input slot k says so (value 2)
 pub fn maybe_panic(k: usize) {
     if inp(k) == 2 {
@@ -373,12 +405,19 @@ pub enum Cmp {
     Proj,
     /// value only
     Value,
+    /// concurrent kinds: value equal, per-branch projections equal, events never go back to an earlier step
+    ProjSteps,
+    /// async try kinds: value equal or member of the reference's `ANYOF[a|b|..]`, every per-branch projection
+    /// of the macro's trace is a prefix of the reference's (equal when the value is a success), steps monotone
+    TryAsync,
 }
 pub struct Prog {
     pub id: &'static str,
     pub r: fn() -> String,
     pub m: fn() -> String,
     pub rows: &'static [&'static [i64]],
+    /// every subset of these input slots is additionally set to 1 on top of each row (fault enumeration)
+    pub sub: &'static [usize],
     pub cmp: Cmp,
 }
 pub fn panic_msg(p: &Box<dyn Any + Send>) -> String {
@@ -429,6 +468,37 @@ fn proj(log: &[String]) -> Vec<(String, Vec<String>)> {
     }
     m.into_iter().collect()
 }
+/// step index of an event: second dot-separated field of its site, if numeric
+fn step_of(e: &str) -> Option<u32> {
+    let site = e.split(':').next().unwrap_or("");
+    let mut it = site.split('.');
+    it.next()?;
+    it.next()?.parse().ok()
+}
+pub fn steps_monotone(log: &[String]) -> bool {
+    let mut cur = 0u32;
+    for e in log {
+        if let Some(k) = step_of(e) {
+            if k < cur {
+                return false;
+            }
+            cur = k;
+        }
+    }
+    true
+}
+fn value_in(mv: &str, rv: &str) -> bool {
+    if let Some(rest) = rv.strip_prefix("ANYOF[") {
+        let rest = rest.strip_suffix(']').unwrap_or(rest);
+        rest.split('|').any(|a| a == mv)
+    } else {
+        mv == rv
+    }
+}
+fn proj_prefix(ml: &[String], rl: &[String]) -> bool {
+    let r: std::collections::BTreeMap<String, Vec<String>> = proj(rl).into_iter().collect();
+    proj(ml).into_iter().all(|(k, v)| r.get(&k).map(|rv| rv.len() >= v.len() && rv[..v.len()] == v[..]).unwrap_or(false))
+}
 /// Runs every program on every row; prints one JSON line per program.
 pub fn drive(progs: &[Prog]) {
     std::panic::set_hook(Box::new(|_| {}));
@@ -443,10 +513,26 @@ pub fn drive(progs: &[Prog]) {
             }
         }
         let mut mism: Vec<String> = Vec::new();
+        let (mut nvm, mut ntm) = (0usize, 0usize);
         let mut outcomes: std::collections::BTreeSet<(String, Vec<String>)> = Default::default();
         let mut nonempty_trace = false;
         let mut sample = String::new();
+        let mut allrows: Vec<Vec<i64>> = Vec::new();
         for row in p.rows {
+            for mask in 0u64..(1u64 << p.sub.len()) {
+                let mut r: Vec<i64> = row.to_vec();
+                for (i, s) in p.sub.iter().enumerate() {
+                    if mask >> i & 1 == 1 {
+                        if r.len() <= *s {
+                            r.resize(*s + 1, 0);
+                        }
+                        r[*s] = 1;
+                    }
+                }
+                allrows.push(r);
+            }
+        }
+        for row in &allrows {
             set_inp(row);
             let (rv, rl, rt) = run1(p.r);
             set_inp(row);
@@ -458,14 +544,33 @@ pub fn drive(progs: &[Prog]) {
                 Cmp::Full => rv == mv && rl == ml && rt == mt,
                 Cmp::Proj => rv == mv && proj(&rl) == proj(&ml) && rt == mt,
                 Cmp::Value => rv == mv,
+                Cmp::ProjSteps => rv == mv && proj(&rl) == proj(&ml) && rt == mt && steps_monotone(&ml),
+                Cmp::TryAsync => {
+                    value_in(&mv, &rv)
+                        && steps_monotone(&ml)
+                        && if rv.starts_with("ANYOF[") || rv.starts_with("Err") || rv.starts_with("None") {
+                            proj_prefix(&ml, &rl)
+                        } else {
+                            proj(&rl) == proj(&ml) && rt == mt
+                        }
+                }
             };
             if sample.is_empty() {
                 sample = format!("{{\"row\":{:?},\"value\":{},\"trace\":{}}}", row, jesc(&mv), jlist(&ml));
             }
             outcomes.insert((rv.clone(), rl.clone()));
-            if !ok && mism.len() < 3 {
+            let vdiff = !(rv == mv || (p.cmp == Cmp::TryAsync && value_in(&mv, &rv)));
+            if !ok {
+                if vdiff {
+                    nvm += 1;
+                } else {
+                    ntm += 1;
+                }
+            }
+            if !ok && ((vdiff && nvm <= 3) || (!vdiff && ntm <= 3)) {
                 mism.push(format!(
-                    "{{\"row\":{:?},\"ref\":{{\"value\":{},\"trace\":{},\"toks\":{}}},\"mac\":{{\"value\":{},\"trace\":{},\"toks\":{}}}}}",
+                    "{{\"class\":{},\"row\":{:?},\"ref\":{{\"value\":{},\"trace\":{},\"toks\":{}}},\"mac\":{{\"value\":{},\"trace\":{},\"toks\":{}}}}}",
+                    jesc(if vdiff { "value" } else { "trace" }),
                     row,
                     jesc(&rv),
                     jlist(&rl),
@@ -474,20 +579,20 @@ pub fn drive(progs: &[Prog]) {
                     jlist(&ml),
                     jesc(&format!("{:?}", mt))
                 ));
-            } else if !ok {
-                mism.push(String::new());
             }
         }
-        let nm = mism.len();
-        let shown: Vec<String> = mism.into_iter().filter(|s| !s.is_empty()).collect();
+        let nm = nvm + ntm;
+        let shown: Vec<String> = mism;
         writeln!(
             out,
-            "{{\"id\":{},\"rows\":{},\"outcomes\":{},\"traced\":{},\"nmism\":{},\"mism\":[{}],\"sample\":{}}}",
+            "{{\"id\":{},\"rows\":{},\"outcomes\":{},\"traced\":{},\"nmism\":{},\"nvalue\":{},\"ntrace\":{},\"mism\":[{}],\"sample\":{}}}",
             jesc(p.id),
-            p.rows.len(),
+            allrows.len(),
             outcomes.len(),
             nonempty_trace,
             nm,
+            nvm,
+            ntm,
             shown.join(","),
             if sample.is_empty() { "null".to_string() } else { sample }
         )
